@@ -53,7 +53,12 @@ fn check_string(ctx: &mut Ctx, s: &str) {
         (Expect::DontCare, Ok(_)) => (None, String::new()),
         (Expect::Ok(v), Ok(Ok(id))) => {
             if id.as_u32() == *v {
-                (None, String::new())
+                // the comparison operators against text parse the text the same way
+                match guard(|| (*id == s, *id == *s, HpoTermId::from(s.to_string()) == *id)) {
+                    Ok((true, true, true)) => (None, String::new()),
+                    Ok(other) => (Some("id == text / From<String> disagree with try_from on a text that parses to this id"), format!("(id == &str, id == str, from(String) == id) = {other:?}")),
+                    Err(msg) => (Some("id == text / From<String> panic on a text that try_from accepts"), format!("panic: {msg}")),
+                }
             } else {
                 (Some("returns a different id than the decimal number in the text"), format!("Ok({})", id.as_u32()))
             }
